@@ -18,6 +18,7 @@ RULE = (
     "permutations, rotating); the four emptiness combinations are driven through each input type; every non-empty case is "
     "re-evaluated with the foreground re-partitioned (all instances merged, every voxel its own instance, random relabelling). "
     "Non-trivial = both foregrounds non-empty and different, or an empty side; distinct = hash of (arrays, subset, handler, input type)."
+    ' Further families: a long-lived evaluator and default-handler evaluators re-probed every 20 cases (with a 1-D sample and single-metric handlers constructed in between); foregrounds 30000..140000 voxels apart.'
 )
 ASSUMPTIONS = ["clDice: scikit-image skeleton trusted; judged only when both skeletons are non-empty", "ASSD compared with relative 1e-9"]
 MINIMUM = {"C13.values_judged": 3000, "C13.empty_side_judged": 300, "C13.repartition_judged": 500}
